@@ -370,11 +370,12 @@ const (
 	mutSub
 	mutSwap
 	mutInsert
-	mutWhole // the unmodified program
+	mutNewline // a line break inserted in the gap before the token
+	mutWhole   // the unmodified program
 	mutKinds
 )
 
-var mutNames = []string{"prefix", "del", "dup", "sub", "swap", "ins", "whole"}
+var mutNames = []string{"prefix", "del", "dup", "sub", "swap", "ins", "nl", "whole"}
 
 // genMut: A = corpus entry, B = mutation kind, C = token position; the substitute / inserted token
 // is drawn from the alphabet by (Seed, A, B, C).
@@ -422,6 +423,19 @@ func genMut(s spec) genOut {
 		cp = append(cp, chunk{Gap: " ", Text: t + " "})
 		cp = append(cp, e.Toks[pos:]...)
 		class += "<" + tokCat(t)
+	case mutNewline:
+		cp = append(cp, e.Toks[:pos]...)
+		prev := "start"
+		if pos > 0 {
+			prev = tokCat(e.Toks[pos-1].Text)
+		}
+		nl := "\n"
+		if r.Intn(8) == 0 {
+			nl = mon.Pick(r, []string{"\r\n", "\r", "\n\n", "\n// c\n", " /* c\n */ "})
+		}
+		cp = append(cp, chunk{Gap: e.Toks[pos].Gap + nl, Text: e.Toks[pos].Text})
+		cp = append(cp, e.Toks[pos+1:]...)
+		class = "mut-" + e.Origin + ":nl:" + prev + "|" + at
 	case mutWhole:
 		cp = append(cp, e.Toks...)
 		class = "mut-" + e.Origin + ":whole:" + e.Name
@@ -536,6 +550,15 @@ var fixedSnippets = func() []snippet {
 		strings.Repeat("9", 400), "1."+strings.Repeat("0", 400), "0x"+strings.Repeat("f", 300), strings.Repeat("0", 500), "1e"+strings.Repeat("9", 50))
 	add("escape", `"\a\b\f\n\r\t\v\\\e"`, `"\x"`, `"\x4"`, `"\x41"`, `"\xzz"`, `"\u"`, `"\u12"`, `"é"`, `"\ud800"`, `"\U"`, `"\U0001F389"`, `"\U00110000"`, `"\UFFFFFFFF"`, `"\0"`, `"\00"`, `"\000"`, `"\777"`, `"\400"`, `"\8"`, `"\q"`, `"\'"`, `'\"'`, `'\''`, `"\`+"\n"+`"`, `'\{'`, `'\}'`, `'{"\""}'`, `'{x}\'`, `"\x00"`, `"a`+"\x00"+`b"`, "`\\`", "`\\``",
 		`'{1}'`, `'{1 +}'`, `'{}'`, `'{;}'`, `'{x;y}'`, `'{x`+"\n"+`}'`, `'{"{"}'`, `'{ {"a": 1} }'`, `'{ {1} }'`, `'{ func() { return 1 }() }'`, `'{ '{ '{1}' }' }'`, `'{x} {x} {x} {x} {x} {x} {x} {x}'`, `'{undefined_name}'`, `'{1/0}'`, `'{ return }'`, `'{ x := 1 }'`, `'{ if }'`, `'{`+"`a`"+`}'`)
+	add("linebreak", "{\"a\":\n 1}", "{\"a\":\r 1}", "{\"a\"\n: 1}", "{\n\"a\"\n:\n1\n}", "{\"a\": 1,\n\"b\":\n2}", "{ if\n; ,}", "{1\n}", "{1,\n2}", "{1\n,2}", "{\n1,\n}", "[1,\n2]", "[1\n,2]", "[\n]", "{\n}", "(\n1\n)", "(1\n)", "f(\n1\n)", "f(a,\n)", "f(a\n,b)",
+		"x :=\n1", "x\n:= 1", "x =\n1", "x +=\n1", "x, \ny := [1, 2]", "x,\ny = 1, 2", "const\nx = 1", "const x\n= 1", "const x =\n1", "var\nx = 1", "var x =\n1",
+		"if x\n{ }", "if\nx { }", "if x {\n}\nelse { }", "if x { } else\n{ }", "if x { } else\nif y { }", "if x { } else if\ny { }", "if x {} else if", "if x {} else if\n",
+		"func\n() {}", "func(\na\n) {}", "func(a,\nb=\n1) {}", "func()\n{}", "func f\n() {}", "func() {\nreturn\n}", "func() { return\n1 }()",
+		"for\ni := range x {}", "for i\n:= range x {}", "for i :=\nrange x {}", "for i := range\nx {}", "for i := range x\n{}", "for i := 0;\ni < 1; i++ {}", "for i := 0; i < 1;\ni++ {}", "for\n{ break }",
+		"switch x\n{ }", "switch\nx { }", "switch x { case\n1: }", "switch x { case 1,\n2: }", "switch x { case 1\n: }", "switch x {\ncase 1:\n\n}", "switch x {\n\ndefault:\n\n}", "switch x { case 1:\n}",
+		"x.\ny", "x\n.y", "x[\n0]", "x[0\n]", "x[0:\n1]", "x[\n:1]", "x(\n)", "a +\nb", "a\n+ b", "a &&\nb", "a ?\nb : c", "a ? b\n: c", "a ? b :\nc", "a ?\n", "a ? b :\n", "!\nx", "-\nx", "not\nx",
+		"return\n1", "import\nmath", "import math\nas m", "import math as\nm", "from\nmath import abs", "from math\nimport abs", "from math import\nabs", "from math import (\nabs,\n)", "from math import (abs\n)",
+		"go\nf()", "defer\nf()", "go func() {\n}()", "x <-\n1", "<-\nx", "x |\nf", "x\n| f", "x in\ny", "x not\nin y", "1 not in\n[1]", "'{\nx\n}'", "'{x +\n1}'", "struct {\n}", "x++\n++", "x :=\n", "x =\n", "f(\n", "[\n", "{\n", "{\"a\":\n", "{\"a\": 1,\n", "{1,\n")
 	add("hostile", `return if`, `const x = if`, `switch x { default: }`, "x := `a\nb` +", "f(`a\nb`,", "x := \"a\nb", "'{a\nb}' +", "/* a\nb */ +", "x.\ny.\n", "x := [\n1,\n2\n", "{\n\"a\":\n", "func(\n\n", "x := 1 +\n\n\n", "if x {\n\n\n",
 		"x\r\ny\r\n", "x\ry", "x\u2028y", "\ufeffx := 1", "x := 1\x00", "\x00", "x := 1 // c\x00\ny", "é := 1; é", "日本 := 1", "x := \"日本語\"; x[0]", "a\u0301 := 1", "𝒙 := 1",
 		`x.y = 1`, `x[0] = 1`, `1 = 2`, `f() = 1`, `x.y := 1`, `x[0] := 1`, `x.y++`, `x[0]++`, `f()++`, `1++`, `"a"++`, `x, y = 1`, `x.y, z = 1, 2`, `[a, b] = [1, 2]`, `{a} := 1`,
